@@ -20,7 +20,7 @@ class Shape(Exception):
     pass
 
 
-TOKEN = re.compile(r'\s*(=>|==|!=|&&|\|\||<=|>=|::|[A-Za-z_][A-Za-z0-9_]*!?|\d+|"(?:[^"\\]|\\.)*"|[-+(){}\[\],.&|<>;:!?\'#=])')
+TOKEN = re.compile(r'\s*(=>|==|!=|&&|\|\||<=|>=|::|[A-Za-z_][A-Za-z0-9_]*!?|\d+|"(?:[^"\\]|\\.)*"|[-+*(){}\[\],.&|<>;:!?\'#=])')
 
 
 def lex(text):
@@ -187,8 +187,8 @@ class P:
 
     def atom(self):
         tok = self.peek()
-        if tok == '&':
-            self.eat('&')
+        if tok in ('&', '*'):
+            self.eat()
             return self.atom()
         if tok == 'Rc' and self.peek(1) == '::' and self.peek(2) == 'clone':
             self.eat(); self.eat(); self.eat(); self.eat('(')
